@@ -19,6 +19,12 @@
 #define NA 1
 #endif
 #define NT 8
+#ifndef AR1
+#define AR1 1
+#endif
+#ifndef AR2
+#define AR2 1
+#endif
 enum { T_INT = 0, T_DOUBLE, T_BV, T_BN, T_FUN, T_A, T_B, T_UNDEF };
 /* all typeinfo objects compare by address (names start with *), like the ones the translator emits: no strcmp */
 static struct verif_ti ti_int = {0, "*i"}, ti_double = {0, "*d"}, ti_A = {0, "*A"}, ti_B = {0, "*B"}, ti_unknown = {0, "*unknown"};
@@ -57,7 +63,11 @@ int main(void) {
   for (int a = 0; a < NT; a++) for (int b = 0; b < NT; b++) conv_bit[a][b] = nondet_u8() & 1;
   for (int i = 0; i < NA; i++) { int t = nondet_i32(); __CPROVER_assume(t >= 0 && t < NT); atype[i] = t; set_ti((struct TI*)(args_data[i].bytes + OFF_Data_type_info), t, nondet_u8() & 1); args[i].p = (char*)&args_data[i]; args[i].pn = 0; }
   for (int k = 0; k < NF; k++) {
-    int ar = nondet_i32(); __CPROVER_assume(ar == -1 || ar == 1 || ar == 2); farity[k] = ar; int b = nondet_i32(); __CPROVER_assume(b >= 0 && b <= F_FOREIGN); fbeh[k] = b;
+    int ar = (k == 0) ? AR0 : (k == 1) ? AR1 : AR2; farity[k] = ar;      /* arities are shape parameters (enumerated), everything else is symbolic */ int b = nondet_i32(); __CPROVER_assume(b >= 0 && b <= F_FOREIGN);
+#ifdef NO_REFUSALS
+    __CPROVER_assume(b == F_RET || b == F_FOREIGN);      /* bound of the two-candidate shapes: see props/C06.py */
+#endif
+    fbeh[k] = b;
     set_ti(&ftypes[k][0], T_UNDEF, 0);
     for (int j = 0; j < 2; j++) { int t = nondet_i32(); __CPROVER_assume(t >= 0 && t < NT); fptype[k][j] = t; set_ti(&ftypes[k][1 + j], t, 0); }
     int ntypes = ar < 0 ? 1 : 1 + ar;
@@ -91,6 +101,6 @@ int main(void) {
   else { __CPROVER_assert(n_fallback == 1, "C06: when every candidate refuses, the arithmetic-conversion fallback is entered exactly once");
          if (fb_throws) __CPROVER_assert(__exc_pending, "C06: no compatible overload is an error"); else __CPROVER_assert(!__exc_pending && out.p == (char*)&fb_result, "C06: the fallback's value is the result");
          __CPROVER_assert(0, "witness: fallback"); }
-  if (ntried >= 2) __CPROVER_assert(0, "witness: second candidate tried");
+  if (n_calls >= 1 && winner >= 0 && winner != 0) __CPROVER_assert(0, "witness: exact match preferred");      /* a later-registered overload wins because it is closer to the argument types */
   return 0;
 }
